@@ -11,6 +11,8 @@ THEOREMS = ['MindsVerif.Props.C10.' + n for n in (
     # T10.2 the two resolvers (independent transcriptions) and the join operand's route
     'C10_resolvers', 'C10_resolvers_same', 'C10_resolvers_catalog', 'C10_resolve_table_bare', 'C10_resolve_table_aliases',
     'C10_resolve_table_sub',
+    # the data source of a time-series model inside CREATE TABLE / INSERT / UPDATE..FROM
+    'C10_partial_dbt', 'C10_dbt_project_source', 'C10_dbt_plain', 'C10_witness_dbt', 'C10_dbt_full_false',
     # T10.3 stripping and whole-query pushdown
     'C10_partial_stripped', 'C10_partial_stripped_no_names', 'C10_stripped_exact', 'C10_partial_pushdown',
     'C10_pushdown_full_false', 'C10_witness_5', 'C10_stripped_full_false',
@@ -22,7 +24,7 @@ THEOREMS = ['MindsVerif.Props.C10.' + n for n in (
     'C10_regression_1', 'C10_regression_2', 'C10_regression_3', 'C10_regression_4', 'C10_regression_6',
     'C10_old_resolver_partial')]
 ASSUME = [
-    'QueryPlanner.__init__, resolve_database_table, PlanJoinTablesQuery.resolve_table (own transcription: integration, rest, '
+    'QueryPlanner.__init__, resolve_database_table, adapt_dbt_query (source qualification), PlanJoinTablesQuery.resolve_table (own transcription: integration, rest, '
     'aliases, bare-name flag) / process_table, get_predictor, get_query_info, both check_single_integration with the '
     'CTE-capture guard, prepare_integration_select are hand-modelled (Model/Route.lean); tie = the cat / route / predseq / '
     'plan / strip correspondence streams of this run; the planner must follow the live model variant (corr:route-variant)',
@@ -120,6 +122,29 @@ def probe_ast(cat, ast, sql, deep=True, counterfactual=True):
             for part in (n.where, n.targets):
                 if part is not None:
                     derived_outer |= {id(i) for i, _ in R.table_refs(part if not isinstance(part, list) else A.Tuple(items=part))}
+    # the 'dbt' context of plan_join_ts.adapt_dbt_query: CREATE TABLE / INSERT / UPDATE..FROM whose select joins a
+    # sub-select `(select … from SRC)` with a time-series model; there SRC gets the statement's target integration
+    dbt_tags = {}
+    dbt_target = None
+    dml_sel = getattr(ast, 'from_select', None) if isinstance(ast, (A.CreateTable, A.Insert, A.Update)) else None
+    if isinstance(dml_sel, A.Select) and isinstance(dml_sel.from_table, A.Join):
+        jn = dml_sel.from_table
+        ops = [jn.left, jn.right]
+        subs = [o for o in ops if isinstance(o, A.Select) and isinstance(o.from_table, A.Identifier)]
+        mods = [o for o in ops if isinstance(o, A.Identifier) and (R.spec_model(sp, [p for p in o.parts if isinstance(p, str)]) or (None, '', None))[1].lower() in
+                {n.lower() for n in cat.extras}]
+        if subs and mods:
+            src = subs[0].from_table
+            sparts = [p for p in src.parts if isinstance(p, str)]
+            dbs = databases_of(sp)
+            if len(sparts) > 1 and sparts[0] != sparts[0].lower() and sparts[0].lower() in dbs:
+                dbt_tags[id(src)] = ['dbt-source-qualifier-case']
+            elif sparts and sparts[0].lower() not in dbs:
+                dbt_tags[id(src)] = ['dbt-source-unqualified']
+            tgt = ast.name if isinstance(ast, A.CreateTable) else ast.table
+            if len(tgt.parts) == 1:
+                dbt_tags[id(src)] = dbt_tags.get(id(src), []) + ['dml-target-unqualified']
+                dbt_target = str(tgt.parts[0])
     refs = []
     for ident, path in R.table_refs(ast):
         parts = [p for p in ident.parts if isinstance(p, str)]
@@ -134,6 +159,7 @@ def probe_ast(cat, ast, sql, deep=True, counterfactual=True):
         tags = classify_ref(sp, ident, path)
         if id(ident) in derived_outer:
             tags.append('subquery-of-select-from-derived-table')
+        tags += dbt_tags.get(id(ident), [])
         refs.append(dict(parts=parts, kind=kind, db=db, rest=rest, path=path, tags=tags))
     base = dict(sql=sql, catalog=cat.kwargs())
 
@@ -180,6 +206,7 @@ def probe_ast(cat, ast, sql, deep=True, counterfactual=True):
                 tags = sorted({t for r in cands for t in r['tags']} | ({'case-operand'} if ('Case', 'arg') in tpath else set())
                               | ({'cte-definition'} if ('CommonTableExpression', 'query') in tpath else set())
                               | ({'cte-body-join'} if cte_body_join(tpath) else set())
+                              | ({'dml-target-unqualified'} if dbt_target is not None and len(tp) > 1 and tp[0] == dbt_target else set())
                               | ({'default-namespace-case'} if cat.dns and cat.dns != cat.dns.lower() and (tp[0] == cat.dns or str(integ) == cat.dns) else set()))
                 exp = sorted({str(r['db']) for r in cands})
                 kinds = sorted({r['kind'] for r in cands})
@@ -203,7 +230,7 @@ def probe_ast(cat, ast, sql, deep=True, counterfactual=True):
                          step_integration=integ, identifier=[str(p) for p in ip], step_query=str(st_query), tags=tags)
         # O1b: every data table is fetched from the integration its name resolves to
         for r in refs:
-            if r['kind'] == 'table' and r['db'] in sp['integrations']:
+            if r['kind'] == 'table' and (r['db'] in sp['integrations'] or r['db'] in sp['projects']):
                 cut = r['rest'][1:] if len(r['rest']) > 1 and r['rest'][0].lower() == r['db'] else r['rest']
                 if (r['db'], r['rest']) not in fetched and (r['db'], cut) not in fetched:
                     if len(r['parts']) > 1 and r['rest'] and r['rest'][-1] in ctes and sp['dns'] == r['db']:
@@ -251,7 +278,7 @@ def probe_ast(cat, ast, sql, deep=True, counterfactual=True):
     other = summ(p2, e2)
     if mine != other:
         p3, e3 = run_plan(cat, lower_qualifiers(ast, sp, only_join=True))
-        tags = sorted({t for r in refs for t in r['tags'] if t.startswith('join-operand')})
+        tags = sorted({t for r in refs for t in r['tags'] if t.startswith('join-operand') or t == 'dbt-source-qualifier-case'})
         attributed = bool(tags) and summ(p3, e3) == other
         fail('variance-qualifier-case/%s' % (','.join(tags) if attributed else 'unattributed'),
              'the plan changes when database qualifiers are written in lower case', with_as_written=mine[:6] if isinstance(mine, list) else mine,
@@ -373,9 +400,10 @@ def run(chk):
         if any(p == '' for p in parts) and rng.random() < 0.8:
             parts = [p or 'e' for p in parts]
         alias = [rng.choice(['a', 'B', 'Int1'])] if rng.random() < 0.3 else None
+        dbt_int = rng.choice([None, 'int1', 'int2', 'INT1', 's'])
         lines.append(json.dumps(dict(op='route', cat=c.model(), parts=[R.enc(p) for p in parts],
-                                     alias=None if alias is None else [R.enc(a) for a in alias])))
-        metas.append(('route', c, (parts, alias)))
+                                     alias=None if alias is None else [R.enc(a) for a in alias], dbtInt=R.enc_opt(dbt_int))))
+        metas.append(('route', c, (parts, alias, dbt_int)))
     # ---- correspondence b2: ONE planner resolves a sequence of model references; each answer must be what the
     # (stateless) model gives for that reference alone — no hidden state between references
     seqs = {}
@@ -425,6 +453,16 @@ def run(chk):
         sql = g.multi_model()
         if sql:
             stmts.append((c, sql, 'select', sorted(g.features)))
+    # DML statements whose SELECT part joins a data source (integration / project / default namespace / schema-qualified)
+    # with a model, incl. time-series models over sub-selects: the routing oracle holds for the SELECT part of every form
+    dcats = mcats + [R.Cat([('d', 'int1', 'data', 'sql'), ('d', 'int2', 'data', 'sql'), ('d', 'proj', 'project', None)], None,
+                           ('list', [('tp', 'mindsdb'), ('pred', 'proj')]), dns, {'tp': R.Cat.TS}) for dns in (None, 'mindsdb', 'int1')]
+    for i in range(300 if quick else 4000):
+        c = dcats[i % len(dcats)]
+        g = R.QGen(rng, c, adversarial=0.0)
+        sql, kind = g.dml_model()
+        if sql:
+            stmts.append((c, sql, kind, sorted(g.features)))
     # a table written with the default-namespace integration explicitly, followed by a schema called like another database
     for c in (R.Cat([('n', 'int1'), ('n', 'int2')], None, None, 'int1'), R.Cat([('n', 'int1'), ('n', 'int2')], None, None, 'int2'),
               R.Cat([('n', 'int1'), ('n', 'int2')], None, ('list', [('pred', 'mindsdb')]), 'int1')):
@@ -487,8 +525,13 @@ def run(chk):
                 if canon_catalog(real) != canon_catalog(mod):
                     why = dict(catalog=c.kwargs(), impl=real, model=mod)
             elif op == 'route':
-                arg, alias = arg
+                arg, alias, dbt_int = arg
                 real, mod = R.real_route(c, arg), R.model_route(o)
+                # the dbt workaround of adapt_dbt_query on a data source with these parts
+                if arg and all(arg):
+                    rdbt, mdbt = R.real_dbt_source(c, arg, dbt_int), [R.dec(p) for p in o['dbt']]
+                    if rdbt != mdbt:
+                        why = dict(catalog=c.kwargs(), parts=arg, integration=dbt_int, field='adapt_dbt_query (source)', impl=rdbt, model=mdbt)
                 # resolve_table is transcribed on its own (Model.resolveTable): integration, rest, aliases, bare-name flag
                 rti, mti = R.real_table_info(c, arg, alias), R.model_table_info(o['tableInfo'])
                 if rti != mti and arg and all(arg):
